@@ -232,6 +232,59 @@ Theorem gen_encoder_finalize_eq s :
   omap Gen.SszEncoder_buf (Gen.encoder_finalize s) = Ok (enc_finalize (enc_abs s)).
 Proof. destruct s; reflexivity. Qed.
 
+(** ** [Bitfield<T>]: the generic accessors and [from_raw_bytes] *)
+Definition bf_abs (b : Gen.Bitfield) : bf := {| bf_bytes := Gen.Bitfield_bytes b; bf_len := Gen.Bitfield_len b |}.
+
+Lemma get_at_nthN (l : bytes) i : get_at l i = nthN l i.
+Proof.
+  unfold get_at. revert i. induction l as [|x r IH]; intro i.
+  - destruct (N.to_nat i); reflexivity.
+  - cbn [nthN]. destruct (i =? 0) eqn:E.
+    + apply N.eqb_eq in E. subst i. reflexivity.
+    + apply N.eqb_neq in E. rewrite <- IH.
+      replace (N.to_nat i) with (S (N.to_nat (i - 1))) by lia. reflexivity.
+Qed.
+
+Theorem gen_bitfield_len_eq b : Gen.bitfield_len b = Ok (bf_len (bf_abs b)).
+Proof. reflexivity. Qed.
+Theorem gen_bitfield_is_empty_eq b : Gen.bitfield_is_empty b = Ok (bf_len (bf_abs b) =? 0).
+Proof. reflexivity. Qed.
+
+Theorem gen_bitfield_get_eq b i : Gen.bitfield_get b i = bf_get (bf_abs b) i.
+Proof.
+  unfold Gen.bitfield_get, bf_get. destruct b as [bs l]; cbn [Gen.Bitfield_bytes Gen.Bitfield_len bf_abs bf_bytes bf_len].
+  destruct (i <? l); [|reflexivity]. rewrite get_at_nthN.
+  destruct (nthN bs (i / 8)); reflexivity.
+Qed.
+
+Theorem gen_bitfield_set_eq b i v : omap bf_abs (Gen.bitfield_set b i v) = bf_set (bf_abs b) i v.
+Proof.
+  unfold Gen.bitfield_set, bf_set. destruct b as [bs l]; cbn [Gen.Bitfield_bytes Gen.Bitfield_len bf_abs bf_bytes bf_len].
+  destruct (i <? l); [|reflexivity]. rewrite get_at_nthN.
+  destruct (nthN bs (i / 8)) as [byte|]; cbn [ok_or bind omap]; [|reflexivity].
+  destruct v; reflexivity.
+Qed.
+
+Theorem gen_bitfield_from_raw_bytes_eq bs n :
+  omap bf_abs (Gen.bitfield_from_raw_bytes bs n) = from_raw_bytes bs n.
+Proof.
+  unfold Gen.bitfield_from_raw_bytes, from_raw_bytes.
+  destruct (n =? 0) eqn:E0.
+  - destruct bs as [|b0 [|b1 r]].
+    + reflexivity.
+    + unfold llen, index_at. cbn [length N.of_nat N.eqb Pos.eqb Pos.of_succ_nat N.to_nat nth_error bind].
+      destruct (b0 =? 0); reflexivity.
+    + unfold llen. cbn [length]. replace (N.of_nat (S (S (length r))) =? 1) with false by (symmetry; apply N.eqb_neq; lia).
+      reflexivity.
+  - rewrite gen_bytes_for_bit_len_eq. cbn [bind]. rewrite llen_len.
+    destruct (len bs =? bytes_for_bit_len n); cbn [negb omap]; [|reflexivity].
+    unfold usize_sub.
+    assert (H8 : ((n mod 4294967296) mod 8 <=? 8) = true) by (apply N.leb_le; pose proof (N.mod_lt (n mod 4294967296) 8); lia).
+    rewrite H8. cbn [bind]. unfold last_error, unwrap_or_panic.
+    destruct (rev bs) as [|lst ?]; cbn [bind omap]; [reflexivity|].
+    destruct (N.land lst (not8 (overflowing_shr8 255 (8 - (n mod 4294967296) mod 8))) =? 0); reflexivity.
+Qed.
+
 (** The equivalences rest on no axioms. *)
 Print Assumptions gen_sanitize_offset_eq.
 Print Assumptions gen_read_offset_eq.
@@ -242,3 +295,6 @@ Print Assumptions gen_builder_register_eq.
 Print Assumptions gen_builder_finalize_eq.
 Print Assumptions gen_encoder_append_eq.
 Print Assumptions gen_encoder_finalize_eq.
+Print Assumptions gen_bitfield_get_eq.
+Print Assumptions gen_bitfield_set_eq.
+Print Assumptions gen_bitfield_from_raw_bytes_eq.
